@@ -40,12 +40,8 @@ var c11BestEffort = []BestEffort{
 	{Func: "(*db.DatabaseCollectionWithUser).tombstoneActiveRevision", Callee: "setOldRevisionJSON", Reason: "backup of the body being tombstoned, before the tombstone is written by the caller"},
 	{Func: "(*db.DatabaseCollectionWithUser).updateAndReturnDoc", Callee: "Delete", Reason: "obsolete attachment removal after the commit point; failure cannot un-commit, the orphan is reclaimed by attachment compaction"},
 	{Func: "(*db.DatabaseCollectionWithUser).updateAndReturnDoc", Callee: "getAttachmentIDsForLeafRevisions", Reason: "failure only disables obsolete-attachment removal for this write (skipObsoleteAttachmentsRemoval)"},
-	{Func: "(*db.DatabaseCollectionWithUser).updateAndReturnDoc", Callee: "releaseSequence", Reason: relNote},
-	{Func: "(*db.DatabaseContext).UpdatePrincipal", Callee: "releaseSequence", Reason: relNote},
 	{Func: "(*db.DatabaseCollectionWithUser).invalidatePurgedDocGrantees", Callee: "nextSequence", Reason: "post-commit (the purge has happened) stamp for the grantees' invalidation; on failure the purged document's own sequence is used instead and the condition is logged"},
-	{Func: "(*db.DatabaseCollectionWithUser).invalidatePurgedDocGrantees", Callee: "releaseSequence", Reason: relNote},
-	{Func: "(*db.DatabaseContext).assignSequence", Callee: "releaseSequence", Reason: relNote},
-	{Func: "(*db.DatabaseContext).DeleteRole", Callee: "releaseSequence", Reason: relNote},
+	{Func: "*", Callee: "releaseSequence", Reason: relNote},
 	{Func: "(*db.sequenceAllocator).nextSequenceGreaterThan", Callee: "releaseSequenceRange", Reason: relNote},
 	{Func: "(*db.sequenceAllocator).nextSequenceGreaterThan", Callee: "_releaseCurrentBatch", Reason: relNote},
 	{Func: "(*db.sequenceAllocator).releaseUnusedSequences", Callee: "releaseSequenceRange", Reason: relNote},
